@@ -718,6 +718,15 @@ func (e *xstore) closure(roots []int) map[int]bool {
 	return in
 }
 
+func (e *xstore) hasName(i int) bool {
+	for _, j := range e.tags {
+		if j == i {
+			return true
+		}
+	}
+	return false
+}
+
 func (e *xstore) taggedRoots() []int {
 	set := map[int]bool{}
 	for _, i := range e.tags {
@@ -845,10 +854,29 @@ func (e *xstore) do(op string) {
 			return
 		}
 		if err := e.ociSt.Tag(ctx, e.u.g.Nodes[i].Desc, nm); err == nil {
+			prev, had := e.tags[nm]
 			e.tags[nm] = i
+			if had && prev != i && !e.hasName(prev) {
+				e.sops = append(e.sops, fmt.Sprintf("U%d", prev)) // the name moved away from prev
+			}
 			e.sops = append(e.sops, fmt.Sprintf("T%d", i))
 		} else if e.stored[i] {
 			e.fail("tag-error", fmt.Sprintf("Tag(%d,%s): %v", i, nm, err))
+		}
+	case "untag":
+		if e.ociSt == nil {
+			return
+		}
+		i, had := e.tags[arg]
+		err := e.ociSt.Untag(ctx, arg)
+		if had && err != nil {
+			e.fail("untag-error", fmt.Sprintf("Untag(%s): %v", arg, err))
+		}
+		if had && err == nil {
+			delete(e.tags, arg)
+			if !e.hasName(i) {
+				e.sops = append(e.sops, fmt.Sprintf("U%d", i))
+			}
 		}
 	case "delete":
 		i, _ := strconv.Atoi(arg)
@@ -1206,9 +1234,16 @@ func genStore(r *common.Rand, kind string, origin string) {
 			e.do(fmt.Sprintf("delete:%d", common.Pick(r, storedIDs)))
 		case x < 45 && len(absent) > 0:
 			e.do(fmt.Sprintf("push:%d", common.Pick(r, absent)))
-		case x < 60 && len(storedManifests) > 0:
+		case x < 57 && len(storedManifests) > 0:
 			tagN++
 			e.do(fmt.Sprintf("tag:%d:t%d", common.Pick(r, storedManifests), tagN%3))
+		case x < 60 && len(e.tags) > 0:
+			var names []string
+			for nm := range e.tags {
+				names = append(names, nm)
+			}
+			sort.Strings(names)
+			e.do("untag:" + common.Pick(r, names))
 		case x < 78:
 			// make the state safe for GC (see gcPlan) by tagging, then GC
 			for tries := 0; tries < 6; tries++ {
